@@ -1,27 +1,26 @@
 CONSTANTS
   Sides = {"client", "server"}
   MaxSid = 1
-  MaxFrames = 5
+  MaxFrames = 3
   MinFrames = 0
   Names = {"a"}
   BodyPlans <- PlansTiny
   DataCuts = {3}
   Conts = {0, 1}
-  MaxOther = 1
-  MaxGoAway = 1
+  MaxOther = 0
+  MaxGoAway = 0
   AllowUnnamed = FALSE
   AllowReqTrailers = FALSE
   AllowClientGoAway = TRUE
-  AllowTimer = TRUE
-  AllowEarlyEnd = TRUE
-  MaxCall = 5
+  AllowTimer = FALSE
+  AllowEarlyEnd = FALSE
+  MaxCall = 10
   FrameAligned = FALSE
-  MaxAhead = 5
+  MaxAhead = 9
   MaxTimeouts = 0
   EndKinds = {"close"}
-  KeepCalls = FALSE
+  KeepCalls = TRUE
   Variant = "intended"
 INIT Init
 NEXT Next
-VIEW ViewNoCalls
-INVARIANTS TypeOK Agrees EnvWellFormed NeverBroken HpackInSync Transparent EachNamedStreamOnce StreamsAgree
+INVARIANTS Agrees HpackInSync NeverBroken Transparent Emit
